@@ -4,6 +4,12 @@ C12 bounded tier: IndexedAssembly.find_overlaps against a literal scan of the sc
 Oracle (from the statement): lay the rows out base by base on scaffold coordinates 1..total, keep the rows
 whose span shares at least one base with the query [a, b], drop gap rows from both ends of that run;
 nothing left -> None, else (rows, span start of the first kept row, span end of the last kept row).
+
+The statement quantifies over ALL scaffolds and Python coordinates are unbounded, so besides the small-scope
+enumeration there is a family of scaffolds with huge coordinates, built from a handful of rows whose lengths sit
+around the widths of machine integers and of the float mantissa (2**31, 2**32, 2**53, 2**63, 2**64, 10**30); the
+oracle for those is the interval form of the same scan (pure arithmetic on the row spans, no base is enumerated).
+A scaffold that cannot even be indexed is a failure: no query on it can be answered.
 """
 
 import itertools
@@ -18,6 +24,47 @@ from .common import Collector
 
 # row kinds: ("G", length) or ("F", length)
 ROW_KINDS = [("G", 1), ("G", 2), ("G", 3), ("F", 1), ("F", 2), ("F", 3)]
+
+
+# row lengths around the limits of fixed-width number representations (signed/unsigned 32 and 64 bit, the 53-bit
+# float mantissa, well beyond any machine word)
+HUGE = sorted(
+    {2**k + d for k in (31, 32, 53, 63, 64) for d in (-1, 0, 1)} | {2**40, 5 * 10**9, 2**62 + 12345, 2**100 + 7, 10**30 + 1}
+)
+
+
+def huge_shapes(L):
+    """a handful of scaffolds around one huge row length L (totals just below / at / above L, 2L, ...)"""
+    return [
+        (("F", L),),
+        (("G", L),),
+        (("F", L - 1), ("F", 1)),
+        (("F", 1), ("F", L - 1), ("F", 1)),
+        (("F", 1), ("G", L), ("F", 2)),
+        (("G", 2), ("F", L), ("G", 1)),
+        (("F", L), ("F", L)),
+        (("F", 1), ("G", 1), ("F", L), ("G", L), ("F", 3), ("G", 2)),
+    ]
+
+
+def boundary_points(spans):
+    total = spans[-1][1]
+    pts = {1, 2, total, total + 1, total + 2}
+    for s, e in spans:
+        pts.update(v + d for v in (s, e) for d in (-1, 0, 1))
+        pts.add((s + e) // 2)
+    return sorted(p for p in pts if p >= 1)
+
+
+def try_build(kinds):
+    """build(kinds), or (None, message) when the scaffold cannot be built or indexed"""
+    try:
+        return build(kinds), None
+    except Exception as e:
+        return None, (
+            f"indexing a scaffold with rows {kinds} (total length {sum(n for _, n in kinds)}) raised "
+            f"{type(e).__name__}: {e} - no query on this scaffold can be answered"
+        )
 
 
 def build(kinds):
@@ -54,7 +101,12 @@ def expected(is_gap, spans, a, b):
 
 
 def check(kinds, a, b, col, inp, built=None):
-    scf, is_gap, spans, asm = built or build(kinds)
+    if built is None:
+        built, err = try_build(kinds)
+        if err:
+            col.fail(err, inp)
+            return
+    scf, is_gap, spans, asm = built
     want = expected(is_gap, spans, a, b)
     try:
         got = asm.find_overlaps(Fragment("scf", a, b, 1))
@@ -97,8 +149,10 @@ def run(tier, seed, **opts):
     max_rows = 4 if tier == "quick" else 5
     col = Collector(
         f"every scaffold of 1..{max_rows} rows, each row a gap of length 1..3 or a fragment of length 1..3 (strands "
-        "+,-,? by position), x every query 1 <= a <= b <= total+2; non-trivial = distinct (rows, a, b) where the "
-        "query intersects at least one row"
+        "+,-,? by position), x every query 1 <= a <= b <= total+2; plus scaffolds of 1..6 rows with one or two rows of "
+        "huge length (2**31-1 .. 10**30+1: cumulative coordinates beyond every machine-integer and float-mantissa "
+        "width) x every pair of query points at row boundaries +-1, row middles and past the end; non-trivial = "
+        "distinct (rows, a, b) where the query intersects at least one row"
     )
     n_sc = 0
     for n in range(1, max_rows + 1):
@@ -118,6 +172,25 @@ def run(tier, seed, **opts):
                     )
             if col.full:
                 break
+    # scaffolds with huge coordinates (a few rows each), every pair of query points taken from the row boundaries
+    # +-1, the middle of each row, 1, 2 and total..total+2
+    n_huge = 0
+    for L in HUGE:
+        for kinds in huge_shapes(L):
+            n_huge += 1
+            built, err = try_build(kinds)
+            if err:
+                total = sum(n for _, n in kinds)
+                inp = {"rows": [list(k) for k in kinds], "a": 1, "b": total}
+                col.fail(err, inp)
+                col.case((kinds, 1, total))
+                continue
+            pts = boundary_points(built[2])
+            total = built[2][-1][1]
+            for a, b in itertools.combinations_with_replacement(pts, 2):
+                inp = {"rows": [list(k) for k in kinds], "a": a, "b": b}
+                check(kinds, a, b, col, inp, built=built)
+                col.case((kinds, a, b), nontrivial=a <= total, sample=inp if (n_huge, a) == (29, 2) and b > total else None)
     exhaustive = True
     if tier != "quick":
         # random larger scaffolds: long rows, many rows, queries sampled at row boundaries +-1
@@ -133,8 +206,32 @@ def run(tier, seed, **opts):
                 inp = {"rows": [list(k) for k in kinds], "a": a, "b": b}
                 check(kinds, a, b, col, inp, built=built)
                 col.case((kinds, a, b), nontrivial=a <= total)
+        # the same with huge row lengths mixed in (cumulative coordinates cross several word widths in one scaffold)
+        lengths = (1, 2, 3, 7, 100, 10**6) + tuple(HUGE)
+        for _ in range(1500):
+            n = rng.randint(1, 10)
+            kinds = tuple((rng.choice("GGF" if rng.random() < 0.5 else "GFF"), rng.choice(lengths)) for _ in range(n))
+            built, err = try_build(kinds)
+            total = sum(v for _, v in kinds)
+            if err:
+                col.fail(err, {"rows": [list(k) for k in kinds], "a": 1, "b": total})
+                col.case((kinds, 1, total))
+                continue
+            pts = boundary_points(built[2])
+            for _ in range(40):
+                a, b = sorted((rng.choice(pts), rng.choice(pts)))
+                inp = {"rows": [list(k) for k in kinds], "a": a, "b": b}
+                check(kinds, a, b, col, inp, built=built)
+                col.case((kinds, a, b), nontrivial=a <= total)
     return col.result(
         bounds=f"scaffolds of <= {max_rows} rows over {len(ROW_KINDS)} row kinds ({n_sc} scaffolds), all queries up to total+2"
-        + ("" if tier == "quick" else "; plus 3000 random scaffolds of 6..14 rows with row lengths up to 10**6, boundary queries"),
+        f"; plus {n_huge} scaffolds of 1..6 rows around {len(HUGE)} huge row lengths (2**31-1 .. 10**30+1), all pairs of "
+        "boundary/middle query points"
+        + (
+            ""
+            if tier == "quick"
+            else "; plus 3000 random scaffolds of 6..14 rows with row lengths up to 10**6 and 1500 random scaffolds of "
+            "1..10 rows with huge row lengths mixed in, boundary queries"
+        ),
         exhaustive=exhaustive,
     )
